@@ -2,7 +2,7 @@
   The composite client helper `Client.Signer` / `cryptoSigner.Sign` — model of
     kmipclient/sign_verify.go  `Signer`, `verifySignerKeyAttributes`, `cryptoSigner.Sign`
   (the only place of kmipclient/*.go outside client.go where the CONTENT of response payloads is
-  interpreted: 2–3 GetAttributes exchanges, one Get exchange, later one Sign exchange per signature).
+  interpreted: two GetAttributes exchanges, one Get exchange, later one Sign exchange per signature).
 
   Each exchange goes through `Executor.ExecContext` (`Kmip.Resp.exec`), so the server is data: a SCRIPT, the
   list of answers it gives to the successive requests (an exhausted script = the connection is dead). An
